@@ -233,7 +233,12 @@ class FourierSeries:
         if not callable(ifftn):
             msg = f"Input ifftn is not callable: {ifftn}"
             raise TypeError(msg)
-        tim_ar = ifftn(self.data)
+        # The number of bins does not tell an odd transform length from the even
+        # one below it: take the length from the header when it matches the bins.
+        nsamples = self.header.nsamples
+        if nsamples // 2 + 1 != self.data.size:
+            nsamples = 2 * (self.data.size - 1)
+        tim_ar = ifftn(self.data, nsamples)
         return timeseries.TimeSeries(tim_ar, self.header.new_header())
 
     def form_spec(self, *, interpolate: bool = False) -> PowerSpectrum:
